@@ -7,9 +7,13 @@ package main
 import (
 	"context"
 	"encoding/binary"
+	"io"
+	"net"
 	"net/http"
 	"net/http/httptest"
+	"strings"
 	"sync"
+	"sync/atomic"
 	"time"
 
 	frugal "github.com/Workiva/frugal/lib/go"
@@ -60,6 +64,53 @@ func (b *blockT) Flush(ctx context.Context) error {
 	return nil
 }
 
+// holdProxy forwards TCP bytes both ways; bytes from the client are held back until holdUntil.
+type holdProxy struct {
+	ln        net.Listener
+	target    string
+	holdUntil atomic.Value // time.Time
+}
+
+func newHoldProxy(target string) (*holdProxy, error) {
+	ln, err := net.Listen("tcp", "127.0.0.1:0")
+	if err != nil {
+		return nil, err
+	}
+	p := &holdProxy{ln: ln, target: target}
+	p.holdUntil.Store(time.Time{})
+	go func() {
+		for {
+			c, err := ln.Accept()
+			if err != nil {
+				return
+			}
+			s, err := net.Dial("tcp", target)
+			if err != nil {
+				c.Close()
+				continue
+			}
+			go func() { io.Copy(c, s); c.Close() }()
+			go func() {
+				buf := make([]byte, 32768)
+				for {
+					n, err := c.Read(buf)
+					if n > 0 {
+						if d := time.Until(p.holdUntil.Load().(time.Time)); d > 0 {
+							time.Sleep(d)
+						}
+						s.Write(buf[:n])
+					}
+					if err != nil {
+						s.Close()
+						return
+					}
+				}
+			}()
+		}
+	}()
+	return p, nil
+}
+
 var (
 	natsOnce sync.Once
 	natsURL  string
@@ -97,7 +148,18 @@ func timing(q treq) tresp {
 			r.Msg = natsErr.Error()
 			return r
 		}
-		conn, err := hx.NatsConn(natsURL)
+		connURL := natsURL
+		var proxy *holdProxy
+		if q.Stall == "link" {
+			// the client's link to the broker stalls for LateMs (its writes / flushes do not get through)
+			var err error
+			if proxy, err = newHoldProxy(strings.TrimPrefix(natsURL, "nats://")); err != nil {
+				r.Msg = err.Error()
+				return r
+			}
+			connURL = "nats://" + proxy.ln.Addr().String()
+		}
+		conn, err := hx.NatsConn(connURL)
 		if err != nil {
 			r.Msg = err.Error()
 			return r
@@ -116,7 +178,19 @@ func timing(q treq) tresp {
 			r.Msg = err.Error()
 			return r
 		}
-		cleanup = func() { tr.Close(); conn.Close(); peer.Close() }
+		conn.Flush()
+		if proxy != nil {
+			proxy.holdUntil.Store(time.Now().Add(time.Duration(q.LateMs) * time.Millisecond))
+		}
+		cleanup = func() {
+			if proxy != nil {
+				proxy.holdUntil.Store(time.Time{})
+				proxy.ln.Close()
+			}
+			tr.Close()
+			conn.Close()
+			peer.Close()
+		}
 	case "http":
 		srv := httptest.NewServer(http.HandlerFunc(func(w http.ResponseWriter, req *http.Request) {
 			d := 10 * time.Second
